@@ -939,7 +939,7 @@ fn explore(ctx: &Ctx) -> Outcome {
     let mut samples = Vec::new();
     for e in [End::Little, End::Big] {
         let sys = CSys { init: cursor_init(e) };
-        let rep = bfs::explore(&sys, Some(depth), None);
+        let rep = bfs::explore(&sys, Some(depth), Some(8_000_000));
         bfs_states += rep.states;
         bfs_trans += rep.transitions;
         wit.push(json!({"endian": format!("{:?}", e), "witnesses": rep.witness_counts}));
